@@ -18,6 +18,14 @@ UNIONS = [
     ('a6', ['[u16; 3]', 'u16'], 6, '', ''),
     ('five', ['u32', '[u8; 4]', 'u16', '[u16; 2]', 'u8'], 4, '', ''),
     ('a16', ['[u8; 16]', 'u64', '[u32; 4]', 'u128'], 16, '', ''),
+    # tail padding: size_of::<Self>() exceeds the widest field (the size is rounded up to the alignment)
+    ('pad3', ['[u8; 3]', 'u16'], 4, '', '', None),
+    ('pad5C', ['[u8; 5]', 'u32', '(u8, u8)', 'bool'], 8, '', '', 'C'),
+    ('pad5', ['u32', '[u8; 5]'], 8, '', '', None),
+    ('pad9', ['u64', '[u8; 9]'], 16, '', '', 'C'),
+    ('align16', ['u8', 'u16', 'u32', 'u64'], 16, '', '', 'C, align(16)'),
+    ('align4', ['u8'], 4, '', '', 'align(4)'),
+    ('Gpad', ['[u8; CN]', 'T'], 4, '<T: Copy, const CN: usize>', '<u16, 3>', None),
     ('G', ['T', '[u8; 2]'], 2, '<T: Copy>', '<u16>'),
     ('G2', ["&'a [T; 0]", 'usize'], 8, "<'a, T: Copy>", "<'static, u16>"),
 ]
@@ -27,7 +35,8 @@ TRAITSETS = ['all', 'Debug', 'PartialEq', 'Hash', 'Clone', 'PartialEq+Eq+Hash']
 
 
 def build(u, nm, ts, tier):
-    uid, ftys, size, gdecl, ginst = u
+    uid, ftys, size, gdecl, ginst = u[:5]
+    repr = u[5] if len(u) > 5 else None
     if uid == 'G2':
         # pointer-sized first field: only usable through the usize view; every byte pattern is a valid usize
         pass
@@ -49,7 +58,7 @@ def build(u, nm, ts, tier):
     else:
         attrs = ''.join('#[educe(%s)]\n' % m for m in metas)
     fields = ''.join('    pub f%d: %s,\n' % (i, t) for i, t in enumerate(ftys))
-    src = '#[derive(Educe)]\n%spub union Ty%s {\n%s}\n' % (attrs, gdecl, fields)
+    src = '#[derive(Educe)]\n%s%spub union Ty%s {\n%s}\n' % ('#[repr(%s)]\n' % repr if repr else '', attrs, gdecl, fields)
     inst = 'Ty' + ginst
     src += 'const SIZE: usize = %d;\n' % size
     src += ('fn mk(b: &[u8]) -> %s {\n    let mut a = [0u8; SIZE];\n    a.copy_from_slice(b);\n'
@@ -120,7 +129,7 @@ def generate(tier):
 
 
 RULE = ('unions with 1..3 fields over {u8, [u8;1], [u8;2], u16, [u8;4], u32, [u8;8], u64, [u16;N], generic T: Copy, reference + '
-        'usize} (sizes 1, 2, 4, 6, 8; no padding bytes) x name {default, renamed (3 spellings), disabled (3 spellings)} x trait set '
+        'usize} (sizes 1, 2, 4, 6, 8, 16), unions with tail padding ([u8;3]+u16, [u8;5]+u32, [u8;9]+u64, #[repr(align)], generic [u8;N]+T; with and without #[repr(C)]) x name {default, renamed (3 spellings), disabled (3 spellings)} x trait set '
         '{all together, each alone}; values: every byte pattern for sizes 1 and 2, each byte over {00, 01, FF} above; Debug against '
         'debug_tuple(name).field(&bytes) / the bare slice in both formats, == against byte equality on all pairs of the pair domain '
         '(all 65 536 pairs for size 1), the recorded Hasher trace against hashing the byte slice, clone bitwise, Copy probed; Clone '
